@@ -370,7 +370,7 @@ func randStage(a *acc, rnd *vkit.Rand) stage {
 		return stage{"Runs(" + e.name + ")|Flatten", 2,
 			func(in []int) res[int] { return res[int]{out: in, need: needIdentity(len(in))} },
 			func(it iterator.Iterator[int]) iterator.Iterator[int] {
-				return iterator.Flatten(iterator.Runs(it, e.f))
+				return iterator.Flatten(iterator.Runs(it, guardEq(a, e.f)))
 			},
 			func(s stream.Stream[int]) stream.Stream[int] { return stream.Flatten(stream.Runs(s, guardEq(a, e.f))) }}
 	case 10:
